@@ -1,7 +1,10 @@
 CONSTANTS
   Syms = {"C", "N", "O", "S", "P", "F", "Cl", "Si", "Mg"}
   FgNames = {"ether", "ester", "amid", "thioether", "keton", "alcohol", "thioester"}
+  LoopMode = "all"
 SPECIFICATION Spec
+INVARIANT TwoBoundariesClosed
+INVARIANT TwoBoundariesOrderFree
 INVARIANT AlwaysAMergeRule
 INVARIANT CompletionWellFormed
 INVARIANT ExpansionsCarbonFree
